@@ -180,13 +180,23 @@ void partAssignCase(const JV& c, size_t k, const char* ver, bool strips, std::st
 	// (the state before is read from a twin of the loaded model: reading it converts cached data)
 	std::string s0 = strips ? projectShape(twin, byName(twin, "S"), ids) : projectShape(nif, shape, ids);
 	nif.SetShapePartitions(shape, pinfo, L);
-	nif.UpdateSkinPartitions(shape);
+	// (strips, every other case: no rebuild; the model is saved as it is and read back)
+	bool savedInstead = strips && (k / 2) % 2 == 0;
+	NifFile back;
+	if (savedInstead) {
+		if (loadFromString(back, saveToString(nif, false, false)) != 0) return;
+	}
+	else
+		nif.UpdateSkinPartitions(shape);
+	NifFile& now = savedInstead ? back : nif;
+	shape = byName(now, "S");
+	if (!shape) return;
 	NiVector<BSDismemberSkinInstance::PartitionInfo> got;
 	std::vector<int> tp;
-	nif.GetShapePartitions(shape, got, tp);
-	std::string t0 = projectShape(nif, shape, ids);
+	now.GetShapePartitions(shape, got, tp);
+	std::string t0 = projectShape(now, shape, ids);
 	JObj ev;
-	ev.add("e", "partassign").add("case", (long long) k).add("ver", ver).add("strips", strips).raw("L", intsJson(L)).add("boneLimit", boneLimitOf(nif.GetHeader().GetVersion()));
+	ev.add("e", "partassign").add("case", (long long) k).add("ver", ver).add("strips", strips).add("savedInstead", savedInstead).raw("L", intsJson(L)).add("boneLimit", boneLimitOf(nif.GetHeader().GetVersion()));
 	ev.raw("s", s0).raw("t", t0);
 	out += ev.done() + "\n";
 	// "the same holds after vertex deletion": a vertex that only some triangles use goes; the labels are read back again.
@@ -195,15 +205,15 @@ void partAssignCase(const JV& c, size_t k, const char* ver, bool strips, std::st
 		std::vector<uint16_t> idx = {uint16_t(1)}; // the first rim vertex of the fan: used by the first triangle only; every other
 												   // triangle survives, renumbered, and the partitions' vertex maps shrink in front
 		ContentIds id2;
-		std::string s1 = projectShape(nif, shape, id2);
-		bool all = nif.DeleteVertsForShape(shape, idx);
+		std::string s1 = projectShape(now, shape, id2);
+		bool all = now.DeleteVertsForShape(shape, idx);
 		NiVector<BSDismemberSkinInstance::PartitionInfo> got2;
 		std::vector<int> tp2;
-		if (!all) nif.GetShapePartitions(shape, got2, tp2);
-		std::string t1 = projectShape(nif, shape, id2);
+		if (!all) now.GetShapePartitions(shape, got2, tp2);
+		std::string t1 = projectShape(now, shape, id2);
 		JObj e2, cj;
 		cj.add("case", (long long) k).add("ver", ver).add("after", "SetShapePartitions");
-		e2.add("e", "delverts").raw("case", cj.done()).raw("I", u16json(idx)).add("allDeleted", all).add("checkParts", true).add("boneLimit", boneLimitOf(nif.GetHeader().GetVersion()));
+		e2.add("e", "delverts").raw("case", cj.done()).raw("I", u16json(idx)).add("allDeleted", all).add("checkParts", true).add("boneLimit", boneLimitOf(now.GetHeader().GetVersion()));
 		e2.raw("s", s1).raw("t", t1).add("reloaded", false);
 		out += e2.done() + "\n";
 	}
